@@ -106,3 +106,13 @@ impl Process for SlowRec {
         Ok(())
     }
 }
+
+/// A process that parks at the harness gate `proc.handle` on its first message and fails as soon as it is let go.
+pub struct SlowDie { pub name: String, pub log: Log }
+impl Process for SlowDie {
+    async fn handle_message(&mut self, msg: Message) -> edp_node::Result<()> {
+        edp_client::verif::point("proc.handle").await;
+        self.log.lock().unwrap().push((self.name.clone(), describe(&msg)));
+        Err(edp_node::Error::InvalidMessage("fails after being held".into()))
+    }
+}
